@@ -1,5 +1,5 @@
 ---- MODULE PipelineMC ----
 EXTENDS Pipeline
-AllTargets == {"a", "b", "c", "d", "g", "k", "m", "n"}
+AllTargets == {"a", "b", "c", "d", "g", "k", "m", "n", "p", "q", "r"}
 TraceFileC == "pipeline_traces.json"
 ====
